@@ -12,6 +12,7 @@ from rules import jit
 from rules import a64hsem as T
 from rules.a64hsem import Lin, M64, add, sub, mul, neg, scale, xor, const, atom, hi, ror, amount
 import os as _os
+from report import memoised
 
 STRICT_FAMILY = bool(_os.environ.get('RXVERIF_STRICT_FAMILY'))
 
@@ -382,6 +383,7 @@ class RvExec:
         raise AnalysisBroken('RV-HSEM: unsupported statement %s at %s' % (show(top)[:60], loc(s, f)))
 
 
+@memoised('RV-HSEM')
 def rule_hsem(ctx, R, arch='rv64'):
     if STRICT_FAMILY:
         R.note('rule_hsem skipped: RXVERIF_STRICT_FAMILY=1 (emitted-code / executor evaluation on terms switched off, see DESIGN.md 9.2)')
@@ -472,6 +474,7 @@ def rule_hsem(ctx, R, arch='rv64'):
         raise AnalysisBroken('RV-HSEM: only %d cases evaluated' % n)
 
 
+@memoised('RV-SS-HSEM')
 def rule_ss_hsem(ctx, R):
     if STRICT_FAMILY:
         R.note('rule_ss_hsem skipped: RXVERIF_STRICT_FAMILY=1 (emitted-code / executor evaluation on terms switched off, see DESIGN.md 9.2)')
@@ -601,6 +604,7 @@ class MemMachine(Machine):
         return Machine.step32(self, w, where)
 
 
+@memoised('RV-MEM-HSEM')
 def rule_mem_hsem(ctx, R):
     if STRICT_FAMILY:
         R.note('rule_mem_hsem skipped: RXVERIF_STRICT_FAMILY=1 (emitted-code / executor evaluation on terms switched off, see DESIGN.md 9.2)')
